@@ -56,7 +56,7 @@ func refJWKValid(v interface{}) bool {
 	return refStr(m["crv"]) != "" && refStr(m["x"]) != ""
 }
 
-// refKeyValid: one key entry (ids compared for uniqueness elsewhere). Purposes entries are strings.
+// refKeyValid: one key entry (ids compared for uniqueness elsewhere).
 func refKeyValid(k map[string]interface{}) bool {
 	for name := range k {
 		if name != "id" && name != "type" && name != "purposes" && name != "publicKeyJwk" && name != "publicKeyBase58" {
@@ -135,7 +135,13 @@ func anyPurpose(tag string) interface{} {
 }
 
 func putAnyPurposes(k map[string]interface{}) {
-	switch verifrt.Choose("purposes-shape", 7) {
+	switch verifrt.Choose("purposes-shape", 10) {
+	case 7: // an entry that is not a string
+		k["purposes"] = []interface{}{anyPurpose("p0"), []interface{}{nil, 7.0, true, map[string]interface{}{}}[verifrt.Choose("odd-purpose", 4)]}
+	case 8: // five known purposes and a sixth entry that is not a string
+		k["purposes"] = []interface{}{"authentication", "assertionMethod", "capabilityDelegation", "capabilityInvocation", "authentication", 7.0}
+	case 9:
+		k["purposes"] = []interface{}{7.0}
 	case 0: // absent
 	case 1:
 		k["purposes"] = "authentication" // wrong kind
